@@ -31,7 +31,7 @@ def build():
     def hookset_rw(m):
         elems = ", ".join(x.strip() for x in m.group("b").split(",") if x.strip())
         return ("{ let hs__ = crate::shims::hookset(vec![" + m.group("b") + "]); proof { assert(hset(hs__) =~= set![" + elems + "]); } hs__ }")
-    u.verify(M, "MainEventLoop::new", "main_event_loop", props=["C10", "C13", "C14", "C18"], fns={"new": FnSpec(ret="r", sig="""
+    u.verify(M, "MainEventLoop::new", "main_event_loop", props=["C10", "C13", "C14", "C18", "C06", "C01", "C05", "C02"], fns={"new": FnSpec(ret="r", sig="""
     ensures
         // every configured certificate has its run-time object under its own id: two certificates with the same id are an error,
         // and so is a certificate whose account is not configured
@@ -63,7 +63,14 @@ def build():
             }"""),
             ("after_stmt", "let cert = Certificate {", 1, """
             proof {
-                assert(cert_ok(cnf, *crt, root_certs@, cert)); //@C10.certificate_hooks_split_by_type,C13.file_manager_carries_the_configured_modes_and_owners,C14.values_come_from_the_most_specific_wins_getters
+                // what the run-time certificate is made of, one concern at a time
+                assert(cert_hooks_ok(cnf, *crt, cert)); //@C10.certificate_hooks_split_by_type
+                assert(fm_common_ok(cnf, cert.file_manager)); //@C13.file_manager_carries_the_configured_modes_and_owners
+                assert(cert_renew_ok(cnf, *crt, cert)); //@C06.the_certificate_is_scheduled_with_the_configured_renew_delay_and_early_renew,C14.values_come_from_the_most_specific_wins_getters
+                assert(cert_names_ok(cnf, *crt, root_certs@, cert)); //@C14.values_come_from_the_most_specific_wins_getters
+                assert(cert_env_ok(*crt, cert)); //@C10.certificate_environment_is_the_configured_one
+                assert(cert_request_ok(*crt, cert)); //@C01.the_certificate_is_requested_with_the_configured_identifiers_subject_and_digest,C05.the_certificate_is_requested_with_the_configured_identifiers_subject_and_digest,C02.key_type_and_key_reuse_are_the_configured_ones
+                assert(cert_ok(cnf, *crt, root_certs@, cert));
             }"""),
             ])})
     u.raw("main_event_loop", RUN_SPEC, trusted=True)
@@ -119,17 +126,33 @@ pub open spec fn fm_common_ok(cnf: Config, fm: FileManager) -> bool {
     && fm.pk_file_mode == pk_file_mode(cnf) && fm.pk_file_owner == pk_file_user(cnf) && fm.pk_file_group == pk_file_group(cnf) && fm.pk_file_ext == pk_file_ext(cnf)
 }
 // the run-time certificate built for a configured one
-pub open spec fn cert_ok(cnf: Config, crt: config::Certificate, roots: Seq<&str>, c: Certificate) -> bool {
-    &&& crt_hooks(crt, cnf) matches Some(h) && c.hooks@ == h.filter(|h: Hook| touches(h, cert_hook_types()))
-            && c.file_manager.hooks@ == h.filter(|h: Hook| touches(h, file_hook_types()))
-    &&& fm_common_ok(cnf, c.file_manager)
-    &&& crt_renew_delay(crt, cnf) == Some(c.renew_delay) && crt_random_early_renew(crt, cnf) == Some(c.random_early_renew)
+pub open spec fn cert_hooks_ok(cnf: Config, crt: config::Certificate, c: Certificate) -> bool {
+    crt_hooks(crt, cnf) matches Some(h) && c.hooks@ == h.filter(|h: Hook| touches(h, cert_hook_types()))
+        && c.file_manager.hooks@ == h.filter(|h: Hook| touches(h, file_hook_types()))
+}
+pub open spec fn cert_renew_ok(cnf: Config, crt: config::Certificate, c: Certificate) -> bool {
+    crt_renew_delay(crt, cnf) == Some(c.renew_delay) && crt_random_early_renew(crt, cnf) == Some(c.random_early_renew)
+}
+pub open spec fn cert_names_ok(cnf: Config, crt: config::Certificate, roots: Seq<&str>, c: Certificate) -> bool {
     &&& crt_name(crt) == Some(c.crt_name@) && crt_key_type(crt) == Some(c.key_type)
     &&& c.file_manager.crt_name@ == c.crt_name@ && c.file_manager.crt_key_type@ == key_type_text(c.key_type)
     &&& crt_name_format(crt, cnf) == Some(c.file_manager.crt_name_format@) && c.file_manager.crt_directory@ == crt_dir(crt, cnf)
     &&& c.account_name@ == crt.account@ && c.file_manager.account_name@ == crt.account@
     &&& crt_endpoint_name(crt, cnf, roots) == Some(c.endpoint_name@)
-    &&& c.env == crt.env && c.file_manager.env == crt.env
+}
+// what the order and the CSR are made from: the configured identifiers (each with its challenge), subject, digest, key type, key re-use
+pub open spec fn cert_request_ok(crt: config::Certificate, c: Certificate) -> bool {
+    crt_identifiers(crt) == Some(c.identifiers@) && crt_csr_digest(crt) == Some(c.csr_digest) && c.kp_reuse == crt_kp_reuse(crt)
+    && c.subject_attributes == subject_generic(crt.subject_attributes) && crt_key_type(crt) == Some(c.key_type)
+}
+pub open spec fn cert_env_ok(crt: config::Certificate, c: Certificate) -> bool { c.env == crt.env && c.file_manager.env == crt.env }
+pub open spec fn cert_ok(cnf: Config, crt: config::Certificate, roots: Seq<&str>, c: Certificate) -> bool {
+    &&& cert_hooks_ok(cnf, crt, c)
+    &&& fm_common_ok(cnf, c.file_manager)
+    &&& cert_renew_ok(cnf, crt, c)
+    &&& cert_names_ok(cnf, crt, roots, c)
+    &&& cert_env_ok(crt, c)
+    &&& cert_request_ok(crt, c)
 }
 pub open spec fn sync_values(m: Map<Seq<char>, EndpointSync>) -> Map<Seq<char>, Endpoint> { Map::new(m.dom(), |k: Seq<char>| m[k].v.v) }
 // the id a configured certificate gets: "<name>_<key type>"
